@@ -336,6 +336,44 @@ func main() {
 			if fd.Body == nil {
 				continue
 			}
+			// locals that alias a slice parameter (or slice receiver): defined or assigned as the parameter
+			// itself or a reslice of it
+			paramAlias := map[types.Object]bool{}
+			ast.Inspect(fd.Body, func(n ast.Node) bool {
+				as, ok := n.(*ast.AssignStmt)
+				if !ok || len(as.Lhs) != len(as.Rhs) {
+					return true
+				}
+				for i, l := range as.Lhs {
+					id, ok := l.(*ast.Ident)
+					if !ok {
+						continue
+					}
+					rhs := as.Rhs[i]
+					for {
+						if se, ok := rhs.(*ast.SliceExpr); ok {
+							rhs = se.X
+						} else if pe, ok := rhs.(*ast.ParenExpr); ok {
+							rhs = pe.X
+						} else {
+							break
+						}
+					}
+					if rid, ok := rhs.(*ast.Ident); ok {
+						ro := lib.info.Uses[rid]
+						lo := lib.info.Defs[id]
+						if lo == nil {
+							lo = lib.info.Uses[id]
+						}
+						if ro != nil && lo != nil && lo != ro && (ptrParams[ro] || (recvObj != nil && ro == recvObj) || paramAlias[ro]) {
+							if _, isSlice := lo.Type().Underlying().(*types.Slice); isSlice {
+								paramAlias[lo] = true
+							}
+						}
+					}
+				}
+				return true
+			})
 			locals := lib.localPointers(fd.Body, recvObj, recvIsPtr)
 			funcLocals[fd] = locals
 			funcDecls = append(funcDecls, fd)
@@ -446,6 +484,34 @@ func main() {
 							}
 						}
 					case *ast.AssignStmt:
+						// append onto memory the caller owns: the first argument is a slice parameter (or a
+						// slice-typed receiver), a reslice of one, or a local that was defined as one. With spare
+						// capacity — a prefix of a longer buffer — the append writes behind the caller's slice.
+						for _, rhs := range x.Rhs {
+							if call, ok := rhs.(*ast.CallExpr); ok {
+								if f, ok := call.Fun.(*ast.Ident); ok && f.Name == "append" && len(call.Args) > 0 {
+									if _, isB := lib.info.Uses[f].(*types.Builtin); isB {
+										a0 := call.Args[0]
+										for {
+											if se, ok := a0.(*ast.SliceExpr); ok {
+												a0 = se.X
+											} else if pe, ok := a0.(*ast.ParenExpr); ok {
+												a0 = pe.X
+											} else {
+												break
+											}
+										}
+										if id, ok := a0.(*ast.Ident); ok {
+											o := lib.info.Uses[id]
+											_, isSlice := lib.info.Types[call.Args[0]].Type.Underlying().(*types.Slice)
+											if o != nil && isSlice && (ptrParams[o] || (recvObj != nil && o == recvObj) || paramAlias[o]) {
+												writes = append(writes, write{name, "append(" + id.Name + "…)", "paramappend"})
+											}
+										}
+									}
+								}
+							}
+						}
 						for _, lhs := range x.Lhs {
 							noteParamWrite(lhs)
 							lib.classifyWrite(name, lhs, x.Tok, recvObj, recvIsPtr, ptrParams, pkgVars, closure, fd, locals, func(f, l, c string) {
